@@ -52,14 +52,14 @@ def oracle_a2p(p):
 # ---- class glue + scaling ----------------------------------------------------------------------------
 
 def impl_glue(p):
-    o = C.make(p["cls"], p["x"], p["nfft"], p["fs"], p["scale"])
+    o = C.make(p["cls"], p["x"], p["nfft"], p["fs"], p["scale"], p.get("cfg"))
     return [np.asarray(o.psd)]
 
 
 def model_glue(p):
     x = np.asarray(p["x"])
     nfft = C.resolved_nfft(x, p["nfft"])
-    raw = C.raw_two_sided(p["cls"], x, nfft, p["fs"])
+    raw = C.raw_two_sided(p["cls"], x, nfft, p["fs"], p.get("cfg"))
     return C.glue_request(p["cls"], raw, np.isrealobj(x), nfft, p["scale"], p["fs"])
 
 
@@ -67,8 +67,8 @@ def oracle_glue(p):
     x = np.asarray(p["x"])
     cls, nfft_arg, fs = p["cls"], p["nfft"], p["fs"]
     out = []
-    o0 = C.make(cls, x, nfft_arg, fs, False)
-    o1 = C.make(cls, x, nfft_arg, fs, True)
+    o0 = C.make(cls, x, nfft_arg, fs, False, p.get("cfg"))
+    o1 = C.make(cls, x, nfft_arg, fs, True, p.get("cfg"))
     a0, a1 = np.asarray(o0.psd), np.asarray(o1.psd)
     nfft = C.resolved_nfft(x, nfft_arg)
     df = fs / nfft
@@ -80,7 +80,7 @@ def oracle_glue(p):
                    "(observed factor / expected = %.6f)" % (cls, "complex" if np.iscomplexobj(x) else "real", nfft_arg, fs, ratio))
     # changing the sampling frequency with scaling off
     cfac = p["c"]
-    o2 = C.make(cls, x, nfft_arg, cfac * fs, False)
+    o2 = C.make(cls, x, nfft_arg, cfac * fs, False, p.get("cfg"))
     a2 = np.asarray(o2.psd)
     f0, f2 = np.asarray(o0.frequencies()), np.asarray(o2.frequencies())
     if f0.shape != f2.shape or rel(f2, cfac * f0) > 1e-12:
@@ -178,4 +178,12 @@ def gen(rng, nrng, tier):
         x = C.test_data(nrng, N, cplx)
         nfft = [None, "nextpow2", 64, 45, 127, 48][(i // 2) % 6]
         fs = float(10 ** nrng.uniform(-2, 5))
-        yield ("glue", {"cls": cls, "x": x, "nfft": nfft, "fs": fs, "scale": bool(i % 2), "c": float(nrng.choice([2.0, 250.0, 0.5]))})
+        q = {"cls": cls, "x": x, "nfft": nfft, "fs": fs, "scale": bool(i % 2), "c": float(nrng.choice([2.0, 250.0, 0.5]))}
+        if (i // 7) % 2:
+            q["cfg"] = C.random_cfg(nrng, cls, N, boundary=(i % 5 == 4))
+            need = C.min_nfft(cls, N, q["cfg"])
+            if isinstance(nfft, int) and nfft < need:
+                q["nfft"] = need
+            elif not isinstance(nfft, int) and C.resolved_nfft(x, nfft) < need:
+                q["nfft"] = need
+        yield ("glue", q)
